@@ -283,6 +283,18 @@ func (s *Sched) Run(afterStep func()) (blocked []int) {
 	return blocked
 }
 
+// BlockedNow lists, from inside Run's afterStep callback (every goroutine of the
+// bubble is then parked), the tasks that are neither finished nor at a schedule
+// point: they sleep inside the code under test at this very step.
+func (s *Sched) BlockedNow() (ids []int) {
+	for _, t := range s.tasks {
+		if !t.done && !t.atYield {
+			ids = append(ids, t.id)
+		}
+	}
+	return ids
+}
+
 // Abandon releases every parked task so that the bubble can end; tasks
 // blocked inside the code under test are left to the caller (it must unblock
 // them or accept the bubble's deadlock panic, which RunBubble recovers).
